@@ -1,6 +1,7 @@
 import LoguruModel.Conc.Data
 import LoguruModel.Conc.Fifo
 import LoguruModel.Conc.ActivationLemmas
+import LoguruModel.Conc.LevelsLemmas
 import LoguruModel.Generated.ConcShape
 /-
 C02 – property theorems about the interleaving model `Conc.step` (for EVERY schedule: any number of
@@ -305,5 +306,67 @@ theorem activation_order_matters :
 theorem activation_shape_of_source :
     Conc.ShapeGen.actFirst = true ∧ Conc.ShapeGen.copiesEnabledUnderLock = true ∧
     Conc.ShapeGen.missReadsEnabledFirst = true := by decide
+
+/-! ### the level table (`Conc/Levels.lean`): no logging call indexes a level a handler does not know -/
+
+/-- With the repaired order of `level()` (handlers updated before the name is published) and `add()` building
+the handler under the lock that registers it, NO schedule of level creations, adds, removes and log calls makes
+`Handler.emit` index a level the handler has no pre-coloured format for: no internal `KeyError`. -/
+theorem no_level_keyerror (sched : List (Levels.Tid × Levels.Lab)) :
+    (Levels.run false true {} sched).err = false :=
+  (Levels.inv_run sched).ne
+
+/-- …from every state satisfying the invariant (e.g. with handlers and levels already present). -/
+theorem no_level_keyerror_from (s : Levels.St) (h : Levels.Inv s) (sched : List (Levels.Tid × Levels.Lab)) :
+    (Levels.run false true s sched).err = false :=
+  (Levels.inv_run_from s h sched).ne
+
+/-- every registered handler knows every published level, in every reachable state -/
+theorem registered_handlers_know_published_levels (sched : List (Levels.Tid × Levels.Lab)) :
+    ∀ h ∈ (Levels.run false true {} sched).reg,
+      (Levels.run false true {} sched).lookup ≤ (Levels.run false true {} sched).known h :=
+  (Levels.inv_run sched).rk
+
+/-- a level a log call has seen stays visible (levels are only added) and is known to every handler it will visit -/
+theorem accepted_level_known_to_visited_handlers (sched : List (Levels.Tid × Levels.Lab)) (t : Levels.Tid)
+    (l : Nat) (todo : List Levels.Hid) (hq : (Levels.run false true {} sched).pc t = .l2 l todo) :
+    ∀ h ∈ todo, l < (Levels.run false true {} sched).known h := by
+  have := (Levels.inv_run sched).pcs t
+  rw [hq] at this
+  exact this
+
+/-- non-vacuity: a run that creates a level, adds a handler, logs at the level and delivers it -/
+example :
+    let sched : List (Levels.Tid × Levels.Lab) := [
+      (1, .startAdd), (1, .acq), (1, .construct), (1, .register), (1, .rel),
+      (2, .startLevel), (2, .acq), (2, .setAnsi), (2, .readReg), (2, .upd 0), (2, .pubLookup), (2, .rel),
+      (3, .startLog 0), (3, .readLookup 1), (3, .readReg), (3, .emit 0), (3, .done)]
+    let s := Levels.run false true {} sched
+    s.lookup = 1 ∧ s.known 0 = 1 ∧ s.reg = [0] ∧ s.err = false ∧ s.pc 3 = .idle := by
+  decide
+
+/-- the order of the code before fix 545c12a (name published first) is refuted: a log call in the window fails -/
+theorem level_published_first_keyerror_witness :
+    let sched : List (Levels.Tid × Levels.Lab) := [
+      (1, .startAdd), (1, .acq), (1, .construct), (1, .register), (1, .rel),
+      (2, .startLevel), (2, .acq), (2, .setAnsi), (2, .pubLookup),     -- name visible, handler 0 not yet updated
+      (3, .startLog 0), (3, .readLookup 1), (3, .readReg), (3, .emit 0)]
+    (Levels.run true true {} sched).err = true := by
+  decide
+
+/-- building the handler outside the lock is refuted too: a level created between construction and registration
+is unknown to the new handler for ever -/
+theorem unlocked_construct_keyerror_witness :
+    let sched : List (Levels.Tid × Levels.Lab) := [
+      (1, .startAdd), (1, .construct),                                  -- snapshot of the levels, no lock
+      (2, .startLevel), (2, .acq), (2, .setAnsi), (2, .readReg), (2, .pubLookup), (2, .rel),
+      (1, .acq), (1, .register), (1, .rel),
+      (3, .startLog 0), (3, .readLookup 1), (3, .readReg), (3, .emit 0)]
+    (Levels.run false false {} sched).err = true := by
+  decide
+
+/-- tie G: the current source updates the handlers before it publishes a level, and builds handlers under the lock -/
+theorem levels_shape_of_source :
+    Conc.ShapeGen.lookupFirst = false ∧ Conc.ShapeGen.lockedConstruct = true := by decide
 
 end C02
